@@ -53,6 +53,16 @@ func (in *Interp) cancelCtx(c *ctxSt, err Value) {
 	}
 }
 
+// ctxErr is the value of the context package's error variable (so that errors.Is and == work on it).
+func (in *Interp) ctxErr(global, msg string) Value {
+	if p := in.Prog.ImportedPackage("context"); p != nil {
+		if g := p.Var(global); g != nil {
+			return copyVal(*in.global(g))
+		}
+	}
+	return in.newErr(msg, Value{})
+}
+
 func (in *Interp) newChildCtx(parent *ctxSt) *ctxSt {
 	c := &ctxSt{done: &ChanV{}, parent: parent}
 	if parent != nil {
@@ -84,7 +94,7 @@ func (in *Interp) fireTimer() bool {
 		return false
 	}
 	best.fired = true
-	in.cancelCtx(best, in.newErr("context deadline exceeded", Value{}))
+	in.cancelCtx(best, in.ctxErr("DeadlineExceeded", "context deadline exceeded"))
 	in.Cover["timer-fired"] = true
 	return true
 }
@@ -146,7 +156,7 @@ func init() {
 
 func (in *Interp) cancelFunc(c *ctxSt) Value {
 	return Value{K: KFunc, R: &Intrinsic{Name: "context.CancelFunc", F: func(in *Interp, fr *Frame, a []Value) (Value, bool) {
-		in.cancelCtx(c, in.newErr("context canceled", Value{}))
+		in.cancelCtx(c, in.ctxErr("Canceled", "context canceled"))
 		return Value{}, true
 	}}}
 }
